@@ -105,8 +105,26 @@ def run(tier, seed, replay=None):
                   ("2 in [1] in [false]", "(2 in [1]) in [false]"), ("1 - 2 - 3", "(1 - 2) - 3"), ("8 / 4 / 2", "(8 / 4) / 2"), ("1 << 2 << 3", "(1 << 2) << 3"),
                   ("7 % 4 % 2", "(7 % 4) % 2"), ("1 < 2 == true", "(1 < 2) == true"), ("1 == 1 != false", "(1 == 1) != false"), ("6 & 3 | 8", "(6 & 3) | 8"),
                   ("1 in [1] == true", "(1 in [1]) == true"), ("true == 1 in [1]", "true == (1 in [1])"), ("1 + 1 in [2]", "1 + (1 in [2])")]
+        # postfix forms bind tightest: an operand in parentheses (or any other primary) takes them like a bare name
+        _setup = "a = [1, 2, 3, 4]; m = {\"k\": a}; l = [a]; func f() { return a }; "
+        for form in ("[:2:9]", "[:2:3]", "[1:2:3]", "[1:2:9]", "[:2]", "[1:]", "[:]", "[0:1]", "[9:]", "[1]", "[9]"):
+            for operand in ("(a)", "m.k", "l[0]", "f()", "((a))", "m[\"k\"]"):
+                chains.append((_setup + "a" + form, _setup + operand + form))
+        chains.append((_setup + "b = a[:1:1]; b += 9; a", _setup + "b = (a)[:1:1]; b += 9; a"))
+        chains.append((_setup + "b = a[:1:1]; b += 9; a", _setup + "b = f()[:1:1]; b += 9; a"))
+        # the two-target read v, ok = m[k] is the same statement when its right side is written in parentheses
+        for pre, item in (("m = {\"x\": 1}", "m[\"x\"]"), ("m = {\"x\": 1}", "m[\"nope\"]"), ("m = {\"x\": nil}", "m[\"x\"]"), ("x = [[1, 2]]", "x[0]"), ("m = {\"x\": [7, 8]}", "m[\"x\"]"),
+                          ("m = {\"k\": {\"j\": 5}}", "m[\"k\"][\"j\"]")):
+            for par in ("(%s)", "((%s))"):
+                chains.append((pre + "; a, b = " + item + "; [a, b]", pre + "; a, b = " + (par % item) + "; [a, b]"))
         sf = os.path.join(scratch, "chains.json")
-        json.dump(["(%s) ?? \"E\"" % x for pair in chains for x in pair], open(sf, "w"))
+
+        def _wrap(x):
+            if "; " in x:
+                pre, last = x.rsplit("; ", 1)
+                return pre + "; (" + last + ") ?? \"E\""
+            return "(%s) ?? \"E\"" % x
+        json.dump([_wrap(x) for pair in chains for x in pair], open(sf, "w"))
         common.sh([harness, "interp", "-srcfile", sf, "-out", scratch], env=common.GOENV, timeout=600)
         drecs = [json.loads(l) for l in open(os.path.join(scratch, "directed.jsonl"))]
         known, _ = common.known_findings(PID)
